@@ -103,6 +103,10 @@ def nan_pattern(rng, tvals, day_of, pattern, per_day):
             idx = np.flatnonzero(day_of == d)
             keep = len(idx) // 2 + int(rng.choice([0, 1]))                 # 11|12 of 23, 12|13 of 25, 12|13 of 24
             v[rng.choice(idx, size=len(idx) - keep, replace=False)] = np.nan
+    elif pattern == "feed_begins_missing":
+        # a weather feed whose first readings are missing (the station came on line a few hours into the first day), plus a few isolated gaps
+        v[: int(rng.integers(2, 6))] = np.nan
+        v[rng.random(len(v)) < 0.01] = np.nan
     elif pattern == "quarter":
         for d in pick(10):
             idx = np.flatnonzero(day_of == d)
@@ -121,7 +125,9 @@ def run_case(spec):
     start = spec["start"]
     midx = daily_index(tz, start, ndays)
     if mh:
-        midx = midx + pd.Timedelta(hours=mh)
+        # a meter that reads at <mh> o'clock WALL-CLOCK time every day (mh is after every transition hour of the listed zones, so the time
+        # exists and is unambiguous); adding 'mh hours' to local midnight would read an hour off on the days of a DST change
+        midx = (midx.tz_localize(None).normalize() + pd.Timedelta(hours=mh)).tz_localize(tz)
     y = np.round(20 + rng.normal(0, 2, ndays), 3)
     if spec.get("usage_nan_run"):
         # days without a usage reading (a run and a few isolated ones) in the interior: their temperature, and their neighbours', is untouched
@@ -144,6 +150,9 @@ def run_case(spec):
     ff = fidx.asi8 if fidx.unit == "ns" else fidx.as_unit("ns").asi8
     day_of = np.searchsorted(mm, ff, side="right") - 1
     tv = nan_pattern(rng, tv, day_of, spec["pattern"], 24 * 60 // minutes)
+    lead_nan = int(np.argmax(np.isfinite(tv))) if np.isfinite(tv).any() else len(tv)        # number of missing readings at the start of the feed
+    if lead_nan >= 2:
+        I.reach("feed.begins_with_missing_readings")
     if minutes == 30:
         I.reach("feed.half_hourly")
     meter = pd.Series(y, index=midx, name="value")
@@ -207,6 +216,11 @@ def run_case(spec):
         elif minutes != 60 and mh:
             ratio = ":meter-reads-at-another-hour"
             complete = "any-day"
+        elif minutes == 60 and spec["entry"] == "series" and lead_nan >= 2 and mh and all(np.isnan(b[1]) for b in bad_mean):
+            # the hole left by the trimmed leading readings (see the counts classifier below) sends the hourly feed down the coarse-feed path,
+            # whose calendar-day bins do not line up with a meter that reads at another hour: every day's temperature is missing
+            ratio = ":feed-begins-with-two-or-more-missing-readings:meter-reads-at-another-hour"
+            complete = "any-day"
         elif minutes != 60 and all(pos[b[0]] >= len(out) - 2 for b in bad_mean):
             ratio = ":last-day-of-the-data"
             complete = "any-day"
@@ -239,6 +253,11 @@ def run_case(spec):
                     why = ":meter-reads-at-another-hour"
                 elif minutes != 60 and all((x[1], x[2]) in ((1, 0), (0, 1)) for x in badc):
                     why = ":one-flag-per-day-instead-of-reading-counts"
+                elif minutes == 60 and spec["entry"] == "series" and lead_nan >= 2 and (all((x[1], x[2]) in ((1, 0), (0, 1)) for x in badc) or
+                                                                                       (mh and all(np.isnan(x[1]) and np.isnan(x[2]) for x in badc))):
+                    # from_series trims the feed's leading missing readings; the meter's first timestamp comes back through the join, the second
+                    # reading does not: the hourly index has a hole, is no longer recognised as hourly and is handled like a coarse feed
+                    why = ":feed-begins-with-two-or-more-missing-readings"
                 else:
                     why = ""
                 add("sufficiency-counts-not-exact:%s:%dmin%s" % (spec["cls"].split("-")[0], minutes, why),
@@ -254,7 +273,7 @@ def gen_cases(tier, seed):
     q = tier == "quick"
     n = 64 if q else 900
     zones = ["America/Chicago", "UTC", "Europe/London", "Australia/Sydney", "Asia/Kolkata", "America/Los_Angeles", "Europe/Berlin", "Pacific/Auckland", "Asia/Tokyo", "America/New_York"]
-    pats = ["none", "isolated", "runs", "whole_days", "exactly_half", "around_half", "quarter", "dst_half", "dst_half"]
+    pats = ["none", "isolated", "runs", "whole_days", "exactly_half", "around_half", "quarter", "dst_half", "dst_half", "feed_begins_missing"]
     cases = []
     for i in range(n):
         tz = zones[i % (6 if q else len(zones))]
